@@ -5,10 +5,12 @@ T_PLY = ["engine H harness /verif/go/harness (c04.go, c08.go, util_ply.go: gener
          "Go toolchain/runtime/stdlib (strconv, encoding/binary, bufio.Scanner, strings.Fields)"]
 
 CFG = dict(
+    modules=["PolyVerif.Props.C04", "PolyVerif.Props.C04Compose"],
     theorems=["ply_wire_roundtrip_record", "ply_body_length_binary", "ply_header_describes_body_binary",
               "ply_header_describes_body_record_size", "ply_header_describes_body_face_size",
               "ply_record_roundtrip_scalar", "ply_vector_reader_offsets", "ply_encodings_disagree_uchar_scalar",
-              "ply_encodings_disagree_uchar_scalar_concrete", "ply_quant_is_stored_precision"],
+              "ply_encodings_disagree_uchar_scalar_concrete", "ply_quant_is_stored_precision",
+              "ply_readback_arrays_binary", "ply_roundtrip_binary_partial", "ply_roundtrip_binary_checked"],
     # proved, but subsumed / definitional: not counted as property theorems (ignored by the check)
     helper_theorems=["ply_put_get_32", "ply_put_get_64", "ply_wire_roundtrip_field", "ply_header_shape",
                      "ply_header_schema", "ply_ascii_scalar_reads_raw"],
